@@ -108,14 +108,26 @@ def install(vm):
     vm.reached = []
     vm.logs = []
 
+    def forced(name):
+        f = getattr(vm, "forced", None)
+        if f is not None and name in f:
+            return True, f[name]
+        return False, None
+
     def m_sym_bool(vm, s, args, kw):
         name = args[0]
+        ok, v = forced(name)
+        if ok:
+            return bool(v)
         b = var(name)
         vm.symvars[name] = ("bool", b)
         return _sb(b)
 
     def m_sym_int(vm, s, args, kw):
         name = args[0]
+        ok, v = forced(name)
+        if ok:
+            return int(v)
         lo = args[1] if len(args) > 1 else kw.get("lo")
         hi = args[2] if len(args) > 2 else kw.get("hi")
         x = z3.Int(name)
@@ -128,6 +140,9 @@ def install(vm):
 
     def m_sym_id(vm, s, args, kw):
         name, lo, hi = args
+        ok, v = forced(name)
+        if ok:
+            return int(v)
         bits = max(1, int(hi).bit_length())
         x = z3.BitVec(name, bits)
         vm.symvars[name] = ("bv", x)
@@ -156,6 +171,9 @@ def install(vm):
         vals = [v for _, v in items]
         if not vals:
             raise Unsupported("choice() over an empty sequence")
+        ok, v = forced(name)
+        if ok:
+            return vals[int(v)]
         if len(vals) == 1:
             vm.symvars[name] = ("choice", [(TRUE, 0)])
             return vals[0]
